@@ -18,6 +18,10 @@ CLAIMS = {
    text='For every arrangement of up to 3 (quick) / 4 (thorough) bands, each absent / headless / headless-with-tail / open / closed, each with one of 7-8 hunk layouts (empty hunk, gap, up to 2-3 hunks), and every relative order of the symbolic entry paths across bands, the listing produced by the real state machine equals the stitching rule, is strictly increasing, reports no spurious error and terminates; bounded-holds within those shapes.',
    note='Trusted: MIR printer, mirsym and its Vec/iterator/Option models, the Store transport model (mirsym/env.py), Snappy+JSON modelled as exact inverses, z3. Entry paths are "/"+one symbolic code point here; two-level paths with a subtree filter are exercised by the C12 check.',
    design='§3 C08'),
+ 'C05': dict(engine='mirsym', technique='bounded symbolic execution of the MIR of Archive::delete_bands, referenced_blocks, GarbageCollectionLock::{new,break_lock,check,release,drop}, Band::delete, BlockDir::delete_block over a symbolic archive store; crash point and failing step are solver-chosen; native replay through the verif_hooks transport interceptor',
+   text='For each of a set of small archive shapes (2-3 bands, shared/private/garbage blocks, symbolic block lengths and address offsets, gaps, incomplete newest band, stale lock), every delete set, dry-run/real, with and without break_lock: the solver explores every crash point and every single failing read/list/metadata step with each error kind, and shows that remaining complete bands keep all blocks, only requested bands / unreferenced blocks / the lock are removed, no garbage remains after success and a dry run mutates nothing. Bounded to those shapes.',
+   note='Trusted: MIR printer, mirsym + models, the Store transport model, list_blocks modelled (tokio JoinSet not executed), remove_dir_all atomic, Snappy/JSON inverse, hash injective, z3. Histories are not explored: the pre-state is an arbitrary archive satisfying the stated invariant.',
+   design='§3 C05', category='fault_enumeration'),
 }
 NA = {
  'C15': 'exclusion semantics live in globset/regex automata, which neither Kani nor the MIR interpreter can execute; a model of glob matching would verify the model, not conserve (DESIGN §4)',
@@ -34,7 +38,7 @@ for pid in props:
             'evidence_file': 'evidence/%s.json' % pid,
             'replay_cmd_template': 'replay/target/debug/verif-replay {path}',
             'engine': c['engine'],
-            'level_claimed': {'category': 'model_checking', 'text': c['text'], 'design_ref': c['design']},
+            'level_claimed': {'category': c.get('category', 'model_checking'), 'text': c['text'], 'design_ref': c['design']},
             'level_note': c['note'],
             'technique': c['technique'],
         })
